@@ -27,16 +27,6 @@ pub fn verif_str_char_count(s: &str) -> (n: usize)
     ensures n == str_char_count(s)
 { s.chars().count() }
 
-/// stand-in for the macro-generated `impl Number for u64` (impl_number!): needed only because `u64` is the default type
-/// argument of `numbers::Integer`; the methods of unit uper are verified for an arbitrary `T: Number`
-impl numbers::Number for u64 {
-    open spec fn n_i64(self) -> i64 { self as i64 }
-    open spec fn n_from(v: i64) -> u64 { v as u64 }
-    #[verifier::external_body]
-    fn to_i64(self) -> (r: i64) { self as i64 }
-    #[verifier::external_body]
-    fn from_i64(value: i64) -> (r: Self) { value as u64 }
-}
 
 // ===== compositional encoding of SEQUENCE OF / SET OF (X.691 20) =====
 
@@ -143,4 +133,71 @@ pub proof fn lemma_rt_desc_integer<V>(n_i64: spec_fn(V) -> i64, n_from: spec_fn(
         implies #[trigger] idec(bytes, pos, limit) == Some((v, pos + enc(v).len())) by {
         lemma_rt_cwn(bytes, pos, limit, lo as int, hi as int, n_i64(v) as int);
     }
+}
+
+/// stand-ins for the macro-generated `impl Number for $T` (impl_number!): the conversions themselves are NOT specified
+/// (uninterpreted spec functions, external bodies); the methods of unit uper are verified for an arbitrary `T: Number`
+impl numbers::Number for u8 {
+    uninterp spec fn n_i64(self) -> i64;
+    uninterp spec fn n_from(v: i64) -> u8;
+    #[verifier::external_body]
+    fn to_i64(self) -> (r: i64) { self as i64 }
+    #[verifier::external_body]
+    fn from_i64(value: i64) -> (r: Self) { value as u8 }
+}
+impl numbers::Number for u16 {
+    uninterp spec fn n_i64(self) -> i64;
+    uninterp spec fn n_from(v: i64) -> u16;
+    #[verifier::external_body]
+    fn to_i64(self) -> (r: i64) { self as i64 }
+    #[verifier::external_body]
+    fn from_i64(value: i64) -> (r: Self) { value as u16 }
+}
+impl numbers::Number for u32 {
+    uninterp spec fn n_i64(self) -> i64;
+    uninterp spec fn n_from(v: i64) -> u32;
+    #[verifier::external_body]
+    fn to_i64(self) -> (r: i64) { self as i64 }
+    #[verifier::external_body]
+    fn from_i64(value: i64) -> (r: Self) { value as u32 }
+}
+impl numbers::Number for u64 {
+    uninterp spec fn n_i64(self) -> i64;
+    uninterp spec fn n_from(v: i64) -> u64;
+    #[verifier::external_body]
+    fn to_i64(self) -> (r: i64) { self as i64 }
+    #[verifier::external_body]
+    fn from_i64(value: i64) -> (r: Self) { value as u64 }
+}
+impl numbers::Number for i8 {
+    uninterp spec fn n_i64(self) -> i64;
+    uninterp spec fn n_from(v: i64) -> i8;
+    #[verifier::external_body]
+    fn to_i64(self) -> (r: i64) { self as i64 }
+    #[verifier::external_body]
+    fn from_i64(value: i64) -> (r: Self) { value as i8 }
+}
+impl numbers::Number for i16 {
+    uninterp spec fn n_i64(self) -> i64;
+    uninterp spec fn n_from(v: i64) -> i16;
+    #[verifier::external_body]
+    fn to_i64(self) -> (r: i64) { self as i64 }
+    #[verifier::external_body]
+    fn from_i64(value: i64) -> (r: Self) { value as i16 }
+}
+impl numbers::Number for i32 {
+    uninterp spec fn n_i64(self) -> i64;
+    uninterp spec fn n_from(v: i64) -> i32;
+    #[verifier::external_body]
+    fn to_i64(self) -> (r: i64) { self as i64 }
+    #[verifier::external_body]
+    fn from_i64(value: i64) -> (r: Self) { value as i32 }
+}
+impl numbers::Number for i64 {
+    uninterp spec fn n_i64(self) -> i64;
+    uninterp spec fn n_from(v: i64) -> i64;
+    #[verifier::external_body]
+    fn to_i64(self) -> (r: i64) { self as i64 }
+    #[verifier::external_body]
+    fn from_i64(value: i64) -> (r: Self) { value as i64 }
 }
